@@ -88,6 +88,8 @@ def strategy(tier):
                                  'opred', 'wpred', 'spred']),
         'mode': st.sampled_from(['development', 'production']),
         'read_only': st.booleans(),
+        # what the candidate presents while a slow predicate is deciding
+        'slow_payload': st.sampled_from(['wrong', 'absent', 'empty']),
         'payloads': st.lists(payload_variants(), min_size=1, max_size=4)})
     cmd = st.one_of(
         st.fixed_dictionaries({'ev': st.just('emit'),
@@ -272,7 +274,10 @@ def _gate(case):
             P = w.h.eio_packet
             sock = w.h.eio.sockets[w.t[t]]
             task = loop.spawn(sock.receive(P.Packet(
-                P.MESSAGE, '0/admin,{"username":"nobody","password":"x"}')))
+                P.MESSAGE, '0/admin,' + {
+                    'absent': '', 'empty': '{}'}.get(
+                        case.get('slow_payload'),
+                        '{"username":"nobody","password":"x"}'))))
             loop.run_until_idle()
             pending = not task.done()
             # ... and the candidate does not wait for its verdict either: it
@@ -308,6 +313,8 @@ def _gate(case):
                                 repr(later[:2]))
             refused.append(t)
             labels['verdict_pending_while_traffic'] = pending
+            labels['pending_candidate_payload'] = case.get('slow_payload',
+                                                           'wrong')
             labels['nontrivial'] = True
             gate_box[0] = None
         for payload in case['payloads']:
